@@ -7,6 +7,8 @@ import TpmModel.Generated.Misc
 import TpmModel.Pinned.Misc
 import TpmModel.Pinned.Prims
 import TpmModel.RcSpec
+import TpmModel.Front
+import TpmModel.Cache
 /-! Line-protocol driver: one operation per input line, canonical observation lines + `END` per operation. -/
 
 def findType (n : String) : Option Ty := (Generated.typeByName.find? (·.1 == n)).map (·.2)
@@ -96,6 +98,26 @@ def handle (line : String) : List String :=
       let rc := fun v => rcRender Pinned.rcTables "TPM_RC" (C18.rcSpec v)
       [s!"I valid={if p.isValid x then 1 else 0} bytes={bytes} fmt={p.format rc x}"]
     | _, _ => ["X bad-int-op"]
+  | ["FRONT", which, hex] =>
+    match bytesOfHex hex with
+    | none => ["X bad-hex"]
+    | some s =>
+      let show_ := fun (r : FrontRes) => match r with
+        | .ok bs => s!"F ok {if bs.isEmpty then "-" else hexOfBytes bs}"
+        | .valueError bs => s!"F ValueError {if bs.isEmpty then "-" else hexOfBytes bs}"
+      match which with
+      | "hex" => [show_ (hexParse s)]
+      | "swtpm" => [show_ (swtpmParse Generated.swtpmConsts s)]
+      | "auto" => [match autoDetect s with
+          | none => "F IOError" | some .pcapng => "F pcapng" | some .hex => "F hex" | some .binary => "F binary"]
+      | _ => ["X bad-front"]
+  | ["TRIM", payloads] =>
+    let ps := (payloads.splitOn ";").map bytesOfHex
+    if ps.any Option.isNone then ["X bad-hex"] else
+    let bs := pcapBytes (ps.filterMap id)
+    [s!"F ok {if bs.isEmpty then "-" else hexOfBytes bs}"]
+  | ["CACHE", names] =>
+    (Cache.run (Cache.init Generated.cacheCapacity) (names.splitOn ",")).map fun p => s!"C {p.1} {p.2}"
   | ["BITS", pn, xs] =>
     match findPrim pn, xs.toNat? with
     | some p, some x => bitLines p x
